@@ -12,6 +12,11 @@ type FilterFunc func(Value) bool
 // also pass.
 func FilterType(t reflect.Type) FilterFunc {
 	return func(v Value) bool {
+		// A nil type matches nothing.
+		if t == nil {
+			return false
+		}
+
 		// Direct match is always true
 		if v.Type == t {
 			return true
@@ -23,11 +28,11 @@ func FilterType(t reflect.Type) FilterFunc {
 }
 
 // FilterOr returns a FilterFunc that returns true if any of the given
-// filter functions return true.
+// filter functions return true. Nil filter functions are ignored.
 func FilterOr(fs ...FilterFunc) FilterFunc {
 	return func(v Value) bool {
 		for _, f := range fs {
-			if f(v) {
+			if f != nil && f(v) {
 				return true
 			}
 		}
@@ -37,11 +42,11 @@ func FilterOr(fs ...FilterFunc) FilterFunc {
 }
 
 // FilterAnd returns a FilterFunc that returns true if any of the given
-// filter functions return true.
+// filter functions return true. Nil filter functions are ignored.
 func FilterAnd(fs ...FilterFunc) FilterFunc {
 	return func(v Value) bool {
 		for _, f := range fs {
-			if !f(v) {
+			if f != nil && !f(v) {
 				return false
 			}
 		}
